@@ -29,6 +29,7 @@ from pysmt.solvers.solver import IncrementalTrackingSolver, Solver
 from pysmt.solvers.options import SolverOptions
 from pysmt.decorators import clear_pending_pop
 from pysmt.exceptions import SolverReturnedUnknownResultError
+from pysmt.solvers.smtlib import SmtLibBasicSolver
 
 
 class ProbeOptions(SolverOptions):
@@ -111,6 +112,12 @@ class RefusingProbeSolver(ProbeSolver):
             raise RuntimeError("the back-end refuses to open more levels")
         for _ in range(levels):
             self.native.append([])
+
+
+class ScriptProbeSolver(ProbeSolver, SmtLibBasicSolver):
+    """A tracking solver with the SMT-LIB command interface, as the wrappers of the native solvers have it: the
+    target of SmtLibScript.evaluate."""
+    pass
 '''
 
 ALPHABET = ["A", "B", "P", "P2", "P0", "O", "O2", "O0", "R", "S", "SA", "Q", "V", "U"]
@@ -1336,6 +1343,112 @@ def _script_chunk(seqs):
         r = res[0]
         return [(seq, "unsupported", ["%s %s" % (r.kind, str(r.detail)[:200])]) for seq in seqs]
     return res[0].detail
+
+
+E_ALPHABET = ["A", "B", "P", "P2", "O", "O2", "R", "C"]
+
+
+def e_sequences(max_len):
+    out = []
+    for n in range(1, max_len + 1):
+        for seq in itertools.product(E_ALPHABET, repeat=n):
+            if s_legal(tuple(x for x in seq if x != "C")) and (seq[-1] == "C" or "R" in seq):
+                out.append(seq)
+    out += [("A", "P", "B", "C", "R", "C"), ("P", "A", "R", "B", "C"), ("A", "C", "P2", "B", "O", "C", "R", "A", "C"), ("A", "R", "R", "C"),
+            ("P2", "A", "O", "B", "O", "C"), ("A", "P", "R", "P", "B", "O", "C")]
+    return out
+
+
+def _eval_chunk(seqs):
+    """SmtLibScript.evaluate on an incremental solver: the script's commands reach the solver, so that every check-sat sees
+    the live assertions of the script and the solver ends with them."""
+    repo = get_repo()
+    repo.add_virtual(PROBE_MOD, PROBE_SRC)
+    shape = Shape(("lit", True, BOOL))
+
+    def call(w, it, f0):
+        it.apply_decorators = {"pysmt.decorators.clear_pending_pop"}
+        a, b = w.symbol("a", ("BOOL",)), w.symbol("b", ("BOOL",))
+        forms = {"A": a, "B": b}
+        logic = it.module_global(w.repo.modules["pysmt.logics"], "QF_BOOL")
+        out = []
+        for seq in seqs:
+            problems = []
+            try:
+                script = it.instantiate(ClassRef(SCRIPT), [], {})
+                for st in seq:
+                    if st in ("A", "B"):
+                        it.call(it.getattr(script, "add"), ["assert", [forms[st]]])
+                    elif st in ("P", "P2"):
+                        it.call(it.getattr(script, "add"), ["push", [1 if st == "P" else 2]])
+                    elif st in ("O", "O2"):
+                        it.call(it.getattr(script, "add"), ["pop", [1 if st == "O" else 2]])
+                    elif st == "R":
+                        it.call(it.getattr(script, "add"), ["reset-assertions", []])
+                    else:
+                        it.call(it.getattr(script, "add"), ["check-sat", []])
+                log = []
+                answers = [True, False] * (len(seq) + 1)
+                solver = it.instantiate(ClassRef(PROBE_MOD + ".ScriptProbeSolver"), [w.env, logic, log, list(answers)], {})
+                rlog = it.iterate(it.call(it.getattr(script, "evaluate"), [solver]))
+                # reference: the live assertions at each check-sat and at the end
+                want_solves = []
+                for i, st in enumerate(seq):
+                    if st == "C":
+                        live, _ = _ref_replay(tuple(x for x in seq[:i] if x != "C"), forms)
+                        want_solves.append(live)
+                live_end, _ = _ref_replay(tuple(x for x in seq if x != "C"), forms)
+                solves = [e for e in log if e[0] == "solve"]
+                if len(solves) != len(want_solves):
+                    problems.append("%d check-sat commands, %d solve calls reach the solver" % (len(want_solves), len(solves)))
+                else:
+                    for k_, (e, wl) in enumerate(zip(solves, want_solves)):
+                        if [id(g) for g in e[1]] != [id(g) for g in wl]:
+                            problems.append("check-sat no. %d is answered for the assertions %s, the live assertions of the script are %s"
+                                            % (k_ + 1, _names(w, list(e[1])), _names(w, wl)))
+                            break
+                got = it.iterate(it.getattr(solver, "assertions"))
+                if [id(g) for g in got] != [id(g) for g in live_end]:
+                    problems.append("after the script the solver holds %s, the live assertions of the script are %s"
+                                    % (_names(w, got), _names(w, live_end)))
+                rets = [r_[1] for r_ in (it.iterate(e_) for e_ in rlog) if r_[0] == "check-sat"]
+                if rets != answers[:len(rets)]:
+                    problems.append("the log of evaluate reports %r for the check-sat commands, the solver answered %r" % (rets, answers[:len(rets)]))
+                plain = it.call(it.getattr(script, "get_last_formula"), [])
+                if plain is not w.app("And", live_end):
+                    problems.append("get_last_formula of the same script is %s" % sc.node_str(w, plain))
+                out.append((seq, "ok" if not problems else "bad", problems))
+            except AbsRaise as ex:
+                out.append((seq, "raise", ["%s%s" % (ex.cls_name, proc._args(ex))]))
+            except Unsupported as ex:
+                out.append((seq, "unsupported", [str(ex)]))
+        return out
+
+    def post(w, f, val, facts):
+        return proc.ProcResult(shape, "valid", val)
+    res = proc.run_proc(shape, call, post=post, services="full", max_paths=4,
+                        interp_kwargs={"max_steps": 20000000, "max_loop": 200000})
+    if len(res) != 1 or res[0].kind != "valid":
+        r = res[0]
+        return [(seq, "unsupported", ["%s %s" % (r.kind, str(r.detail)[:200])]) for seq in seqs]
+    return res[0].detail
+
+
+E_NAMES = {"A": "assert a", "B": "assert b", "P": "push 1", "P2": "push 2", "O": "pop 1", "O2": "pop 2", "R": "reset-assertions", "C": "check-sat"}
+_ECACHE = {}
+
+
+def script_eval_results(repo, tier="quick"):
+    key = (repo.root, tier)
+    if key not in _ECACHE:
+        seqs = e_sequences(4 if tier == "quick" else 5)
+        chunks = [seqs[i:i + 40] for i in range(0, len(seqs), 40)]
+        _eval_chunk(seqs[:2])
+        out = []
+        for r in parallel_map(_eval_chunk, chunks):
+            out.extend(r)
+        _ECACHE[key] = out
+    return _ECACHE[key]
 
 
 _SCACHE = {}
